@@ -12,15 +12,22 @@ What is needed beyond the control fragment is a **closure relation**: which targ
 statements) stands for which callable of the specification (`SFun`: a piece of the template), for the callables
 reachable by name (`ClosRel`), through the `caller` namespaces (`NSRel`), and for the module's top-level defs.
 
-The guard `Good` names what is *not* covered (see `Props/C05.lean`): `<%block>`, `<%include>`, `cached=`, defs
-nested in other defs or in `<%call>` bodies, and the three places where mako's generated code deviates from the
-specification: `<% return %>` inside a buffering def, `caller.x()` inside the argument list of a `<%call expr>`,
-`loop` used where no `LoopStack` is in scope.
+Covered by the guard `Good` (see `Props/C05.lean` for the exact list): defs – top-level, nested in defs, written
+inside a `<%call>` – with buffered / `filter=` / `decorator=`, calls by name, `capture`, `<%call>` with body, body
+arguments and nested defs, `caller.x(…)`, `<%include>` of another template of the set, all control structures.
+*Not* covered: `<%block>`, `cached=`, defs under a control line or in a nested `<%call>` of a `<%call>` body, two defs
+of one name in a scope, and the places where mako's generated code deviates from the specification:
+`<% return %>` inside a buffering def, `caller.x()` inside the argument list of a `<%call expr>`, `loop` used where no
+`LoopStack` is in scope.
 -/
 namespace MakoModel.Codegen.Calls
 open MakoModel.Target MakoModel.Codegen
 
 /-! ## the guarded fragment -/
+
+/-- `<%block>`s are not callable by a name of the template (an anonymous block is `__M_anon_<line>`): in the structured
+    template their names come from a range of their own -/
+def blockBase : Nat := 2000000
 
 mutual
 /-- expressions: everything the generator writes into templates, except `caller.x()` inside a `<%call expr>`
@@ -34,8 +41,8 @@ def GoodE (inLoop inCE cv : Bool) : Expr → Bool
   | .loopIndex => inLoop
   | .cat a b => GoodE inLoop inCE cv a && GoodE inLoop inCE cv b
   | .filt _ e => GoodE inLoop inCE cv e
-  | .call f args => f != 0 && GoodArgs inLoop inCE cv args
-  | .capture f args => f != 0 && GoodArgs inLoop inCE cv args
+  | .call f args => f != 0 && (!inCE || decide (f < blockBase)) && GoodArgs inLoop inCE cv args
+  | .capture f args => f != 0 && (!inCE || decide (f < blockBase)) && GoodArgs inLoop inCE cv args
   | .callerCall _ args => cv && !inCE && GoodArgs inLoop inCE cv args
   | .mbuf => false
   | .includeFile _ => false
@@ -81,6 +88,8 @@ def NoRet : Tmpl → Bool
 
 /-- names of the closures a scope declares -/
 def declNames (t : Tmpl) : List Name := (Spec.declared false 0 t).map (·.1)
+/-- the names a `<%call>` exports to its callee besides `body` -/
+def callNames (t : Tmpl) : List Name := (Spec.callDefsOf 0 t).map (·.1)
 
 def nodupB : List Name → Bool
   | [] => true
@@ -100,37 +109,62 @@ def Good (sc : Scope) (inLoop buf cv cb : Bool) : Tmpl → Bool
   | .ret => !buf
   | .seq a b => Good sc inLoop buf cv cb a && Good sc inLoop buf cv cb b
   | .expr e _ => GoodE inLoop false cv e
-  | .ite c t e => GoodE inLoop false cv c && Good sc inLoop buf cv false t && Good sc inLoop buf cv false e
+  | .ite c t e => GoodE inLoop false cv c && Good sc inLoop buf cv cb t && Good sc inLoop buf cv cb e
   | .for_ _ items body =>
     GoodArgs inLoop false cv items && (!forCtx items body || sc.loops) &&
-      Good sc (inLoop || forCtx items body) buf cv false body
-  | .while_ _ b => Good sc inLoop buf cv false b
-  | .try_ b h => Good sc inLoop buf cv false b && Good sc inLoop buf cv false h
+      Good sc (inLoop || forCtx items body) buf cv cb body
+  | .while_ _ b => Good sc inLoop buf cv cb b
+  | .try_ b h => Good sc inLoop buf cv cb b && Good sc inLoop buf cv cb h
   | .def_ name _ fl body =>
     cb || (name != 0 && !fl.cached && nodupB (declNames body) &&
       (if sc.top then Good (defScope body) false (Spec.isBuffering fl) true false body
        else Good (subScope sc sc.bind body) false (Spec.isBuffering fl) (!effLex sc sc.bind body) false body))
-  | .block _ _ _ _ => false
-  | .include_ _ => false
+  | .block name anon fl body =>
+    -- rendered in place: a callable of its own, entered without content; its content has no nested closures; a
+    -- named block of the template body is a module-level callable with its own `LoopStack`
+    !cb && decide (blockBase ≤ name) && !fl.cached && NoDefs body &&
+      (!refsLoop body || (sc.loops && !(sc.top && !anon))) &&
+      (if sc.top && !anon then Good (defScope body) false (Spec.isBuffering fl) true false body
+       else Good (subScope sc sc.bind body) false (Spec.isBuffering fl) (!effLex sc sc.bind body) false body)
+  | .include_ _ => true
   | .call e _ body =>
-    GoodE inLoop true cv e && GoodCB { sc with top := false, cd := false } body && Good (bodyScope sc body) false false true true body
-/-- the `<%def>`s written into the `ccall` of a `<%call>` that sits in scope `sc`: direct children only -/
+    GoodE inLoop true cv e && GoodCB { sc with top := false, cd := false } body &&
+      Good (bodyScope sc body) false false true true body && nodupB (callNames body)
+/-- the `<%def>`s written into the `ccall` of a `<%call>` that sits in scope `sc`: its direct children and, through
+    nested `<%call>` tags, theirs (`callDefs`); under a control line every def textually inside (`GoodDeep`) -/
 def GoodCB (sc : Scope) : Tmpl → Bool
   | .seq a b => GoodCB sc a && GoodCB sc b
   | .def_ name _ fl body =>
     name != 0 && !fl.cached && nodupB (declNames body) &&
       Good (subScope sc true body) false (Spec.isBuffering fl) (!effLex sc true body) false body
-  | .ite _ t e => NoDefs t && NoDefs e
-  | .for_ _ _ b => NoDefs b
-  | .while_ _ b => NoDefs b
-  | .try_ b h => NoDefs b && NoDefs h
-  | .call _ _ b => NoDefs b
+  | .ite _ t e => GoodDeep sc t && GoodDeep sc e
+  | .for_ _ _ b => GoodDeep sc b
+  | .while_ _ b => GoodDeep sc b
+  | .try_ b h => GoodDeep sc b && GoodDeep sc h
+  | .call _ _ b => GoodCB sc b
+  | .block _ _ _ _ => false
+  | _ => true
+/-- below a control line of a `<%call>` (`deepDefs`): the lexer hangs everything that follows under the control
+    line, so `DefVisitor` writes every def textually inside into `ccall` - also the defs nested in those defs,
+    which is why their content has none here -/
+def GoodDeep (sc : Scope) : Tmpl → Bool
+  | .seq a b => GoodDeep sc a && GoodDeep sc b
+  | .def_ name _ fl body =>
+    name != 0 && !fl.cached && NoDefs body &&
+      Good (subScope sc true body) false (Spec.isBuffering fl) (!effLex sc true body) false body
+  | .ite _ t e => GoodDeep sc t && GoodDeep sc e
+  | .for_ _ _ b => GoodDeep sc b
+  | .while_ _ b => GoodDeep sc b
+  | .try_ b h => GoodDeep sc b && GoodDeep sc h
+  | .call _ _ b => GoodDeep sc b
   | .block _ _ _ _ => false
   | _ => true
 end
 
 /-- a whole template -/
-def GoodTop (t : Tmpl) : Bool := Good (mainScope t) false false true false t && nodupB (declNames t)
+def GoodTop (t : Tmpl) : Bool :=
+  Good (mainScope t) false false true false t && nodupB (declNames t) &&
+    nodupB ((Spec.declared true 0 t).map (·.1))
 
 /-- statements that do nothing -/
 def isSkips : Stmt → Bool
@@ -157,13 +191,15 @@ inductive FunRel : Fun → Spec.SFun → Prop
       `write_def_finish` shapes.  `lex`: the def's `caller` is the parameter of an enclosing `ccall(caller)`; its
       content then does not use `caller` (`cv = !lex`). -/
   | def_ (s : Scope) (ps : List Name) (fl : DefFlags) (body : Tmpl) (own lex : Bool) (mod : Nat) (kind : Spec.Kind) :
-      ((kind = .def_ ∧ s.top = false) ∨ (kind = .main ∧ s.top = true ∧ lex = false)) → fl.cached = false →
-      nodupB (declNames body) = true → Good s false (Spec.isBuffering fl) (!lex) false body = true →
+      ((kind = .def_ ∧ s.top = false) ∨ (kind = .main ∧ s.top = true ∧ lex = false) ∨
+        (kind = .block ∧ s.top = false ∧ own = false)) → fl.cached = false →
+      nodupB ((Spec.declared s.top 0 body).map (·.1)) = true → Good s false (Spec.isBuffering fl) (!lex) false body = true →
       FunRel ⟨ps, ⟨own, fl.deco, lex⟩, defShape fl (.seq (hoist s body) (.prim .getWriter)) (stmts s body)⟩
              ⟨ps, fl, body, kind, mod⟩
   /-- `body()` of a `<%call>`: no frame of its own, `caller` is the closure variable of `ccall(caller)` -/
   | body (sc : Scope) (args : List Name) (body : Tmpl) (mod : Nat) :
       Good (bodyScope sc body) false false true true body = true → GoodCB { sc with top := false, cd := false } body = true →
+      nodupB (callNames body) = true →
       FunRel (bodyFun sc args body) ⟨args, noFlags, body, .body, mod⟩
 
 /-- closures reachable by name: generated code of the same callable, same module, never a `body()` -/
@@ -175,7 +211,8 @@ def LayerRel (layer : Layer) (sl : Spec.SLayer) : Prop :=
   ∃ (sc : Scope) (bargs : List Name) (body : Tmpl),
     layer.funs = collectDefs (callDefs { sc with top := false, cd := false } body) ++ [(0, bodyFun sc bargs body)] ∧
     sl = (0, ⟨bargs, noFlags, body, .body, layer.mod⟩) :: Spec.callDefsOf layer.mod body ∧
-    Good (bodyScope sc body) false false true true body = true ∧ GoodCB { sc with top := false, cd := false } body = true
+    Good (bodyScope sc body) false false true true body = true ∧ GoodCB { sc with top := false, cd := false } body = true ∧
+    nodupB (callNames body) = true
 
 /-- `caller` namespaces: layer by layer -/
 inductive NSRel : NS → Spec.SNS → Prop
@@ -183,7 +220,7 @@ inductive NSRel : NS → Spec.SNS → Prop
   | cons {layer sl tl stl} : LayerRel layer sl → NSRel tl stl → NSRel (layer :: tl) (sl :: stl)
 
 def ClosRel (funs : List (Name × Clo)) (defs : List (Name × Spec.SFun)) : Prop :=
-  ∀ x, x ≠ 0 → OptRel CloRel (lookup x funs) (lookup x defs)
+  ∀ x, x ≠ 0 → OptRel (fun clo sf => CloRel clo sf ∧ (sf.kind = .block → blockBase ≤ x)) (lookup x funs) (lookup x defs)
 
 /-- what `caller` denotes in an activation: the closure variable, or the top of the caller stack -/
 def callerView (l : Loc) (σ : St) : Option NS := if l.useLex then some l.lexc else σ.frames.head?
@@ -380,45 +417,6 @@ theorem nodefs_facts : ∀ t : Tmpl, NoDefs t = true → NoDefsFacts t := by
     exact ⟨fun sc => by simp [hoist, isSkips], fun sc => by simp [callDefs, isSkips],
       fun sc => by simp [deepDefs, isSkips], fun sc => by simp [bodyHoist, isSkips],
       fun top mod => by simp [Spec.declared], fun mod => by simp [Spec.callDefsOf]⟩
-
-/-- the template body itself: its `<%def>`s are module-level callables, its own prologue is empty -/
-theorem good_top_hoist : ∀ (t : Tmpl) (sc : Scope) (il bf cv : Bool), sc.top = true → Good sc il bf cv false t = true →
-    isSkips (hoist sc t) = true ∧ Spec.declared true 0 t = [] ∧ ∀ mod, Spec.declared true mod t = [] := by
-  intro t
-  induction t with
-  | seq a b iha ihb =>
-    intro sc il bf cv ht h
-    simp only [Good, Bool.and_eq_true] at h
-    obtain ⟨a1, a2, a3⟩ := iha sc il bf cv ht h.1
-    obtain ⟨b1, b2, b3⟩ := ihb sc il bf cv ht h.2
-    exact ⟨by simp [hoist, isSkips, a1, b1], by simp [Spec.declared, a2, b2], fun m => by simp [Spec.declared, a3, b3]⟩
-  | ite c a b iha ihb =>
-    intro sc il bf cv ht h
-    simp only [Good, Bool.and_eq_true] at h
-    obtain ⟨a1, a2, a3⟩ := iha sc il bf cv ht h.1.2
-    obtain ⟨b1, b2, b3⟩ := ihb sc il bf cv ht h.2
-    exact ⟨by simp [hoist, isSkips, a1, b1], by simp [Spec.declared, a2, b2], fun m => by simp [Spec.declared, a3, b3]⟩
-  | try_ a b iha ihb =>
-    intro sc il bf cv ht h
-    simp only [Good, Bool.and_eq_true] at h
-    obtain ⟨a1, a2, a3⟩ := iha sc il bf cv ht h.1
-    obtain ⟨b1, b2, b3⟩ := ihb sc il bf cv ht h.2
-    exact ⟨by simp [hoist, isSkips, a1, b1], by simp [Spec.declared, a2, b2], fun m => by simp [Spec.declared, a3, b3]⟩
-  | for_ x items b ih =>
-    intro sc il bf cv ht h
-    simp only [Good, Bool.and_eq_true] at h
-    obtain ⟨b1, b2, b3⟩ := ih sc _ bf cv ht h.2
-    exact ⟨by simp [hoist, b1], by simp [Spec.declared, b2], fun m => by simp [Spec.declared, b3]⟩
-  | while_ m b ih =>
-    intro sc il bf cv ht h
-    simp only [Good] at h
-    obtain ⟨b1, b2, b3⟩ := ih sc il bf cv ht h
-    exact ⟨by simp [hoist, b1], by simp [Spec.declared, b2], fun m => by simp [Spec.declared, b3]⟩
-  | def_ name ps fl b _ =>
-    intro sc il bf cv ht h
-    exact ⟨by simp [hoist, ht, isSkips], by simp [Spec.declared], fun m => by simp [Spec.declared]⟩
-  | block _ _ _ _ _ => intro sc il bf cv _ h; simp [Good] at h
-  | _ => intro _ _ _ _ _ _; exact ⟨by simp [hoist, isSkips], by simp [Spec.declared], fun m => by simp [Spec.declared]⟩
 
 theorem good_noret : ∀ (t : Tmpl) (sc : Scope) (il cv cb : Bool), Good sc il true cv cb t = true → NoRet t = true := by
   intro t
